@@ -178,7 +178,7 @@ Print Assumptions C08_utf8_register.
    inserts -- are only mirrored (and tied to the independent reference Ref8 and to the code by the
    correspondence run), not related to a smaller reference; the sticky column / window top are not part of
    the statement *)
-Theorem C08_refines_partial_x_X_D : forall rows e k y cnt e1 body, plain_reg y ->
+Theorem C08_refines_partial : forall rows e k y cnt e1 body, plain_reg y ->
   let b := s_buf e in let s := s_vs e in
   buf_wf b -> cursor_ok b (v_row s) (v_off s) -> getl b (v_row s) = Some (body ++ [nlc]) -> 0 <= cnt ->
   exec1 rows (lcmd k y cnt) e = Some e1 ->
@@ -188,7 +188,7 @@ Theorem C08_refines_partial_x_X_D : forall rows e k y cnt e1 body, plain_reg y -
   reg_get (s_regs e1) y = Some (flat del, false) /\
   v_row (s_vs e1) = v_row s /\ v_off (s_vs e1) = ren_noeol (Some (nb ++ [nlc])) a.
 Proof. exact refines_line_deletes. Qed.
-Print Assumptions C08_refines_partial_x_X_D.
+Print Assumptions C08_refines_partial.
 Local Open Scope N_scope.
 
 Example C08_nonvacuous :
